@@ -15,7 +15,7 @@ CLAIMED = {
         note="Copy forms are limited to owned and by-reference (input forms are C20's subject).", ref="DESIGN.md §4 C03"),
     "C09": dict(technique="explicit-state BFS on two real regions a/b: history on a, then b = a.clone() or b.clone_from(&a) into a destination pre-filled by 4 unrelated histories, then diverging pushes/clears on both; plus FlatStack clone ops; both build profiles",
         text="Each copy is checked against its own value model after every step; right after the copy every alphabet value is pushed on scratch clones of both and must return the same index; complete renderings of clone and clone_from results must be identical.",
-        note="CodecRegion<DictionaryCodec> is not Clone and is not part of this check.", ref="DESIGN.md §4 C09"),
+        note="CodecRegion<DictionaryCodec> is not Clone and is not part of this check. Coded Huffman containers are covered by the Huffman machine's clone() and clone_from (into a differently coded, pre-filled container) ops with codes up to 19 bits.", ref="DESIGN.md §4 C09"),
     "C11": dict(technique=LIFE + " with an exact reference storage model (per CollapseSequence site: last stored value; per storage: exact used bytes)",
         text="Collapsing regions at top level, in tuple fields, columns, slices and over consecutive pairs, with clear / merge_regions / clone / serde replacement ops: the returned index must equal the model's (previous index iff equal to the previously stored value at that site), and the used bytes of every storage reported by heap_size must equal the model exactly (so a collapsed push stores nothing and a non-equal push is never collapsed). NaN alphabets cover never-equal values.",
         note="-0.0 is excluded from collapse alphabets (it == 0.0, so collapsing it is sanctioned by the property). serde replacement is skipped for NaN alphabets (JSON limit).", ref="DESIGN.md §4 C11"),
@@ -34,14 +34,14 @@ CLAIMED = {
     "C05": dict(
         technique="explicit-state BFS over push/extend/clear/reserve histories of the real index containers with state matching + deviation-bounded long runs, against a Vec<usize> model and a u128 reference stride acceptor; both build profiles",
         text="Every history up to the stated depth over a transition-covering absolute + state-relative alphabet, and every placement of <=2 deviations in long strided/saturated/u32-crossing runs, executed on the real Stride, IndexList, IndexOptimized and Vec<usize>; after every step len/is_empty/index(i)/iter/cloned iter are compared with the pushed sequence and Stride::push verdicts with the documented pattern.",
-        note="Alphabet and bounds as reported in the evidence; values outside the alphabet are not covered. The reference acceptor is 15 lines of u128 arithmetic.",
+        note="Alphabet: 0, 1, 2, 3, u32::MAX, u32::MAX+1, 2^63, usize::MAX, usize::MAX/3, usize::MAX/2 plus state-relative values (next stride element, next multiple of the stride prefix, last, last+-1, 2*last) and four extend batches. Bounds as reported in the evidence; values outside the alphabet are not covered. The reference acceptor is 15 lines of u128 arithmetic. Thorough tier: the same machines are explored a second time with stateright and the unique-state counts must agree.",
         ref="DESIGN.md §4 C05"),
     "C06": dict(technique="explicit-state BFS per frequency profile on the real HuffmanContainer (build source through the API, merge_regions, then item pushes in 4 input forms / merge-from-self / clear), exact bounded decode of all issued items after every step; code lengths measured through the API and compared with a textbook optimum; both build profiles",
         text="Profiles: all count vectors {1,2,3}^n n<=4, Fibonacci-skewed (codes to 23 bits), 257/300/600 u16 symbols, empty, single symbol. Oracle: exact decode, contiguous bit ranges with hi-lo = sum of code lengths, >=1 bit per symbol, Kraft equality, total bits = optimum, out-of-statistics symbols refused by panic.",
-        note="After a refused push the branch ends (the property does not require a usable container afterwards). Coverage table of (start bit, end bit, whole bytes) is in the evidence tags.", ref="DESIGN.md §4 C06"),
+        note="Statistics are spread over two overlapping source regions (the code must come from the summed counts); ops also include merge from [self, raw region], clear, clone(), clone_from into a differently coded container; 27-bit codes (Fibonacci 28) are reached. After a refused push the branch ends (the property does not require a usable container afterwards). Items need not be contiguous, only non-overlapping with hi-lo = sum of code lengths. Coverage table of (start bit, end bit, whole bytes) is in the evidence tags.", ref="DESIGN.md §4 C06"),
     "C07": dict(technique="explicit-state BFS on a pool of up to three real CodecRegion<DictionaryCodec> (push over a fixed + dictionary-relative alphabet, merge_regions over every subset, clear, switch), exhaustive first-byte sweep, scripted >1024-string seeds; both build profiles",
         text="Oracle: a push may be refused only if the string is not a dictionary entry and its first byte is a tag bound to an entry (read through the verif hook); every accepted push reads back exactly after every later operation on every live region; a string with more than half of the sources' pushes (free tag available) occupies exactly one byte.",
-        note="The >1024-distinct-strings scenarios are scripted seed states (labelled so), explored exhaustively only for 1-3 further steps.", ref="DESIGN.md §4 C07"),
+        note="A string that was accepted by a region this one was merged from must be accepted (its first byte was reserved). Scripted seed states (labelled so, explored exhaustively only for 1-3 further steps): >1024 distinct strings in three variants, three generations with ~300 strings pushing a coded-only item out of the dictionary, and a dictionary of > 64 KiB with mixed entry sizes.", ref="DESIGN.md §4 C07"),
     "C08": dict(technique=LIFE + "; a Default twin is created at every clear and driven in lock-step",
         text="For every (history before clear, history after clear) up to the bound: indices returned after the clear equal those of the fresh twin and both read the model values.",
         note="Capacities are deliberately not compared. FlatStack::clear is covered by the FlatStack machine, including stacks whose coded region was built by merge_capacity (after clear every copy must be accepted again).", ref="DESIGN.md §4 C08"),
@@ -49,7 +49,7 @@ CLAIMED = {
         text="reserve_items (every form, three batches), reserve_regions (three scripted sources), merge_regions over five source sets interleaved with pushes and clears; indices and reads compared with the never-reserving / default twin after every step.",
         note="Coded regions take part with merge_regions as well: after a merge only the reads are compared with the default twin and a refused push ends the branch (C06/C07 decide refusal legitimacy). FlatStack::reserve / with_capacity / merge_capacity are covered by the FlatStack machine.", ref="DESIGN.md §4 C10"),
     "C12": dict(technique=LIFE + " on consecutive-pair, columns and vector regions with a push counter oracle",
-        text="The k-th push since creation/clear/merge_regions returns k, and index k reads the k-th value with exactly its own length and cells (rows 0..3 wide in every order), for each offset container.", note="", ref="DESIGN.md §4 C12"),
+        text="The k-th push since creation/clear/merge_regions returns k, and index k reads the k-th value with exactly its own length and cells (rows 0..3 wide in every order), for each offset container, in every input form (incl. PushIter over another region's slice iterator).", note="Thorough tier: stateright cross-check of the explorer on a columns machine.", ref="DESIGN.md §4 C12"),
     "C13": dict(technique=LIFE + " with a per-state oracle probing every position 0..len+2 of every issued item in both representations",
         text="Every state reachable by <=3/4 pushes of items of length 0..3 on all slice/columns compositions; get(i) must equal the model for i < len and panic for i >= len, region-backed and borrowed-from-owned.",
         note="FlatStack::get(i) for i >= len is probed by the FlatStack machine for every index container (part of this check).", ref="DESIGN.md §4 C13"),
@@ -61,7 +61,7 @@ CLAIMED = {
     "C19": dict(
         technique="explicit-state BFS + deviation-bounded long runs on the real IndexOptimized/IndexList, byte cost from heap_size compared with the documented rule after every step",
         text="Same exploration as C05; oracle: used bytes equal 'stride-matching prefix free, then 4 B/entry until the first value > u32::MAX, 8 B/entry after', capacity 0 if never spilled.",
-        note="The documented rule is transcribed from the README/type docs into list_cost()/stride_prefix_len(). FlatStack part pending the FlatStack machine.",
+        note="The documented rule is transcribed from the README/type docs into list_cost()/stride_prefix_len(). Without an explicit reserve the allocation must stay within max(2 x high-water mark of used bytes, four entries). FlatStacks with the optimised container over dense-index regions (consecutive pairs, columns, plain vectors, zero-sized elements) must report (0, 0) for their own indices, in BFS and in runs of up to 1024/4096 items.",
         ref="DESIGN.md §4 C19"),
     "C20": dict(technique=LIFE + "; twin fed the canonical form of every value",
         text="Every value x every input form (incl. forms of children reached through nesting, read items from another region, owned-borrowed read items) mixed arbitrarily up to the depth bound: equal indices, equal per-storage used bytes, equal complete renderings.", note="", ref="DESIGN.md §4 C20"),
